@@ -373,7 +373,7 @@ fn arb_value() -> BoxedStrategy<Node> {
 
 fn key_variants(base: usize, variant: usize) -> Node {
     // the same key in different presentations; `base` selects the key identity
-    match base % 10 {
+    match base % 11 {
         0 => match variant % 3 {
             0 => s("a"),
             1 => Node::scalar("a", Style::Double),
@@ -408,6 +408,13 @@ fn key_variants(base: usize, variant: usize) -> Node {
             1 => Node::scalar("", Style::Single),
             _ => Node::scalar("", Style::Double),
         },
+        // strings by their tag: `!!str` followed by nothing is the empty string (the same key as
+        // `!!str ""`), `!!str ~` is the string "~" (another key)
+        10 => match variant % 3 {
+            0 => Node::plain("").tagged("!!str"),
+            1 => Node::scalar("", Style::Double).tagged("!!str"),
+            _ => Node::plain("~").tagged("!!str"),
+        },
         7 => match variant % 3 {
             0 => Node::seq(true, vec![s("a"), s("b")]).tagged("!t"),
             1 => Node::seq(true, vec![s("a"), s("b")]).tagged("!u"),
@@ -427,7 +434,10 @@ fn make_case(es: Vec<(usize, usize, Node)>, lb: u32, target: Target, place: usiz
     let struct_keys = ["a", "b", "c", "k", "x", "y"];
     for (base, var, v) in es {
         // (the all-strings target cannot take the null key: the empty string stands in)
-        let base = if target == Target::ShapeStr && base % 10 == 8 { 9 } else { base };
+        let base = if target == Target::ShapeStr && base % 11 == 8 { 9 } else { base };
+        // (`!!str` followed by nothing is the empty string for string targets; an untyped target
+        // reads a null there - a matter of scalar interpretation, not of key identity)
+        let var = if target != Target::ShapeStr && base % 11 == 10 && var % 3 == 0 { 1 } else { var };
         let k = if target == Target::Struct { s(struct_keys[base % 3]) } else { key_variants(base, var) };
         entries.push((k, v));
     }
@@ -544,7 +554,7 @@ impl Property for C04 {
         let n = 1 + b.below(6);
         let es: Vec<(usize, usize, Node)> = (0..n)
             .map(|_| {
-                let base = b.below(10);
+                let base = b.below(11);
                 let var = b.below(3);
                 let v = match b.below(9) {
                     0..=3 => gdoc::scalar_from_bytes(&mut b),
@@ -612,7 +622,7 @@ impl Property for C04 {
         ctx.subspace("mappings with <= 4 entries x 2 key identities x 3 key kinds x 3 value shapes x 3 placements x block/flow", total, true);
 
         // ---------------- random: mixed key presentations, aliases, nested
-        let entry = (0usize..10, 0usize..3, arb_value());
+        let entry = (0usize..11, 0usize..3, arb_value());
         let strat = (
             prop::collection::vec(entry, 1..7),
             any::<bool>(),
